@@ -2036,6 +2036,60 @@ def _np_linspace(start, stop, num=50, endpoint=True, **kw):
     return SymArray(out)
 
 
+def _sa(x):
+    return x if isinstance(x, SymArray) else SymArray(_obj(x))
+
+
+def _np_mean(x, axis=None, keepdims=False, **kw):
+    xa = _sa(x)
+    n = xa.a.size if axis is None else xa.a.shape[axis]
+    tot = xa.sum(axis=axis, keepdims=keepdims)
+    return ew(lambda e: _div(tf(e), const(float(n))), tot)
+
+
+def _np_prod(x, axis=None, keepdims=False, **kw):
+    return _reduce(_sa(x), lambda a, b: _mul(tf(a), tf(b)), axis, keepdims, empty=1.0)
+
+
+def _np_nansum(x, axis=None, keepdims=False, **kw):
+    xa = ew_arr(lambda e: _select(_isnan(tf(e)).e, const(0.0), tf(e)), _sa(x))
+    return xa.sum(axis=axis, keepdims=keepdims)
+
+
+def _np_count_nonzero(x, axis=None, keepdims=False, **kw):
+    xa = ew_arr(lambda e: _select(tb(e) if isinstance(e, (SymBool, bool, np.bool_)) else NOT(_eq(tf(e), const(0.0)).e), const(1.0), const(0.0)), _sa(x))
+    return xa.sum(axis=axis, keepdims=keepdims)
+
+
+def _np_concatenate(tup, axis=0, **kw):
+    return SymArray(np.concatenate([_obj(t) for t in tup], axis))
+
+
+def _np_stack(tup, axis=0, **kw):
+    return SymArray(np.stack([_obj(t) for t in tup], axis))
+
+
+def _np_vstack(tup, **kw):
+    return SymArray(np.vstack([np.atleast_2d(_obj(t)) for t in tup]))
+
+
+def _np_allclose(a, b, rtol=1e-5, atol=1e-8, equal_nan=False):
+    r = ew(lambda x, y: _isclose(x, y, rtol, atol, equal_nan), a, b)
+    return r.all() if isinstance(r, SymArray) else r
+
+
+def _np_heaviside(a, b):
+    a, b = tf(a), tf(b)
+    return _select(_isnan(a).e, a, _select(_lt(a, const(0.0)).e, const(0.0), _select(_eq(a, const(0.0)).e, b, const(1.0))))
+
+
+def _np_copyto(dst, src, where=True, **kw):
+    if not isinstance(dst, SymArray):
+        raise Unsupported("copyto into a concrete array with symbolic input")
+    new = _np_where(where, src, dst) if where is not True else src
+    dst.a[...] = np.broadcast_to(_obj(new), dst.a.shape)
+
+
 def _np_broadcast_arrays(*arrays, subok=False):
     outs = np.broadcast_arrays(*[_obj(a) for a in arrays])
     return [SymArray(o.copy()) for o in outs]
@@ -2153,6 +2207,12 @@ TABLE = {
     "atleast_1d": _np_atleast(1), "atleast_2d": _np_atleast(2),
     "take": _np_take, "column_stack": _np_column_stack, "hstack": _np_hstack, "squeeze": _np_squeeze,
     "size": _np_size, "sum": _np_sum, "nancumsum": _np_nancumsum,
+    "mean": _np_mean, "average": _np_mean, "prod": _np_prod, "nansum": _np_nansum, "count_nonzero": _np_count_nonzero,
+    "concatenate": _np_concatenate, "stack": _np_stack, "vstack": _np_vstack, "allclose": _np_allclose, "array_equal": _np_array_equal,
+    "heaviside": _lift(_np_heaviside), "copyto": _np_copyto, "reciprocal": _lift(lambda a: _div(const(1.0), tf(a))),
+    "expand_dims": lambda x, axis: SymArray(np.expand_dims(_obj(x), axis)), "reshape": lambda x, shape, **k: SymArray(_obj(x).reshape(shape)),
+    "ravel": lambda x, **k: SymArray(_obj(x).ravel()), "isneginf": _lift(lambda a: _isinf(tf(a)) & _lt(tf(a), const(0.0))),
+    "isposinf": _lift(lambda a: _isinf(tf(a)) & _lt(const(0.0), tf(a))),
     "nanmean": _nan_reduce("mean"), "nanmax": _nan_reduce("max"), "nanmin": _nan_reduce("min"),
     "interp": _np_interp, "asarray": _np_asarray, "array": _np_asarray, "linspace": _np_linspace,
     "ndim": lambda x: _obj(x).ndim, "shape": lambda x: _obj(x).shape,
